@@ -22,6 +22,7 @@ from ..live import World
 from ..gen import ModelGen, EditGen, EDIT_KINDS
 from .. import refmodel as R
 from .. import c02_handled
+from .. import c02_readers
 
 ID = "C02"
 LEVEL = "exploration"
@@ -218,6 +219,8 @@ def gen_cases(tier, seed):
                    "seed": env.derive_seed(seed, ID, "sq", j, unc), "checkpoints": "all"}
     for c in c02_handled.cases():
         yield c
+    for c in c02_readers.cases():
+        yield c
     n = 400 if tier == "quick" else 15000
     for j in range(n):
         yield {"id": "r%d" % j, "kind": "random", "seed": env.derive_seed(seed, ID, "r", j),
@@ -235,7 +238,7 @@ SEQUENCES = [   # an input, read by dependents (also from another space), then a
 
 
 def expand(case):
-    if "ops" in case or case.get("kind") == "handled":
+    if "ops" in case or case.get("kind") in ("handled", "readers", "equalassign"):
         return case
     rnd = random.Random(case["seed"])
     c = dict(case)
@@ -317,6 +320,8 @@ def run_case(case):
     case = expand(case)
     if case.get("kind") == "handled":
         return c02_handled.run(case)
+    if case.get("kind") in ("readers", "equalassign"):
+        return c02_readers.run(case)
     reset_session()
     live = World("M")
     vio = []
@@ -443,7 +448,7 @@ def _n(v):
 
 
 def shrink(case, violations, deadline):
-    if case.get("kind") == "handled":
+    if case.get("kind") in ("handled", "readers", "equalassign"):
         return None
     from ..shrink import shrink_ops
     return shrink_ops(expand(case), run_case, violations, deadline)
